@@ -2,7 +2,7 @@ from common import T_COMMON
 
 CFG = dict(
     theorems=["readObj_ranges_sum", "obj_resave_faces", "readObj_corners", "readObj_normals_complete", "obj_roundtrip_struct",
-              "obj_roundtrip_carry", "obj_roundtrip", "readObj_transport", "obj_roundtrip_text", "obj_shared_offset_breaks"],
+              "obj_roundtrip_carry", "obj_roundtrip", "readObj_transport", "obj_roundtrip_text", "obj_reload", "obj_shared_offset_breaks"],
     streams=[dict(name="c05", n=dict(quick=300, thorough=10000))],
     trusted=T_COMMON + [
         "text layer: the driver's lexer (bufio.ScanLines, strings.Fields, strconv.Atoi/ParseFloat(.,32), parseObjFaceComponent) and printer (strconv 'f' -1 = shortest round-tripping decimal, computed with exact rational arithmetic) are hand transcriptions in lean/Driver/C05.lean, tied text-exactly by the c05.write / c05.read correspondence on every run; they are not the subject of the theorems",
@@ -10,7 +10,7 @@ CFG = dict(
     ],
     residue=[
         "the print/parse LAWS of the text layer are hypotheses of obj_roundtrip_text (corner tokens: pc' (show c) = ok c; scalars: come back as rt x), not proved for the Go strconv / strings functions; that the driver's lexer/printer (= the Go code, by the text-exact correspondence) satisfy them is observed on every run; names are carried unchanged in the model (blank handling of g / usemtl names lives in the lexer). 'float32 precision' = rt; observed: print-then-parse differs from float32(x) by one float32 ulp on exact ties",
-        "per-corner content on load->save for ARBITRARY accepted texts (predicate Resaves) is oracle-checked, not proved; proved: face count (obj_resave_faces) and what the reader's tables contain (readObj_corners)",
+        "per-corner content of the SAVED TEXT for arbitrary accepted texts (predicate Resaves: faces of the saved text resolve to the same positions, vt/vn kept iff complete) is oracle-checked, not proved as such; proved instead: face count (obj_resave_faces), what the first load's tables contain (readObj_corners, readObj_normals_complete) and that load->save->load returns the first load's scene corner by corner (obj_reload; hypothesis: every returned group has a face, material names survive blank removal)",
         "known finding: a mesh without material ranges after a mesh with ranges reads back with the carried material (obj_roundtrip_carry states the exact behaviour; obj_roundtrip needs NoMatlessAfterMat)",
         "known finding: a zero-triangle mesh that is not last loses its group (hypothesis NonemptyButLast); an empty mesh list reads back as one empty group",
         "material names with blanks are written without them; nil material is written and read back as DefaultDiffuse (names compared as written: matName)",
